@@ -194,6 +194,113 @@ fn array_cases(t: &[(u64, u64, u64)], text_too: bool, out: &mut Out) {
     if text_too { run("C13.text", &[hex(txt.as_bytes())], out); }
 }
 
+/// one `|`-delimited item of exactly `len` bytes: ASCII filler (digits, or digits and letters) with `commas`
+/// commas at random ASCII positions and, if `wide` is given, that character placed at byte offset `at`
+fn long_item(rng: &mut Rng64, len: usize, commas: usize, wide: Option<(char, usize)>, letters: bool) -> Vec<u8> {
+    let mut b: Vec<u8> = (0..len).map(|_| if letters && rng.chance(1, 5) { *rng.pick(&[b'a', b'x', b'_', b'-', b'+']) } else { b'0' + rng.below(10) as u8 }).collect();
+    let mut protected = vec![false; len];
+    if let Some((c, at)) = wide {
+        let mut buf = [0u8; 4];
+        let enc = c.encode_utf8(&mut buf).as_bytes();
+        for (i, x) in enc.iter().enumerate() { b[at + i] = *x; protected[at + i] = true; }
+    }
+    let free: Vec<usize> = (0..len).filter(|i| !protected[*i]).collect();
+    if !free.is_empty() {
+        for _ in 0..commas.min(free.len()) { b[*rng.pick(&free)] = b','; }
+    }
+    b
+}
+/// Long malformed and long valid items: every item length, a 2-, 3- and 4-byte character at EVERY byte offset of
+/// the item (so that any byte-offset slicing of an item in an error path meets a non-boundary), 0..=4 commas;
+/// alone, between bars, and inside an otherwise valid serialisation; very long numbers; very long valid items.
+fn long_item_cases(rng: &mut Rng64, out: &mut Out, thorough: bool) {
+    let lens: Vec<usize> = if thorough { (1..=80).collect() } else {
+        (1..=80usize).filter(|l| *l <= 6 || [14, 15, 16, 17, 18, 22, 23, 24, 25, 26, 27, 30, 31, 32, 33, 34, 40, 46, 47, 48, 49, 50, 56, 62, 63, 64, 65, 66, 72, 80].contains(l)).collect()
+    };
+    let wides = ['\u{e9}', '\u{20ac}', '\u{1F600}'];
+    let emit = |item: &[u8], rng: &mut Rng64, out: &mut Out, all_ctx: bool| {
+        let ctx = if all_ctx { 4 } else { 1 + rng.below(3) };
+        let mut t: Vec<u8> = vec![];
+        match ctx {
+            0 | 4 => { t.extend_from_slice(item); }
+            1 => { t.push(b'|'); t.extend_from_slice(item); t.push(b'|'); }
+            2 => { t.extend_from_slice(b"|2,0,0|2,1,1|"); t.extend_from_slice(item); t.extend_from_slice(b"|0,0,1|"); }
+            _ => { t.extend_from_slice(b" |\t2,0,0|"); t.extend_from_slice(item); t.push(b'|'); }
+        }
+        run("C13.text", &[hex(&t)], out);
+        if ctx == 4 {
+            let mut t2 = vec![b'|']; t2.extend_from_slice(item); t2.push(b'|');
+            run("C13.text", &[hex(&t2)], out);
+            let mut t3 = b"|2,0,0|2,1,1|".to_vec(); t3.extend_from_slice(item); t3.extend_from_slice(b"|0,0,1|");
+            run("C13.text", &[hex(&t3)], out);
+        }
+    };
+    for &len in &lens {
+        // ASCII-only long items with every comma count
+        for commas in 0..=4usize {
+            let it = long_item(rng, len, commas, None, commas % 2 == 1);
+            emit(&it, rng, out, thorough);
+        }
+        for &w in &wides {
+            let wl = w.len_utf8();
+            if len < wl { continue; }
+            for at in 0..=(len - wl) {
+                let comma_counts: Vec<usize> = if thorough { (0..=4).collect() } else { vec![(at + len) % 5, (at + len + 2) % 5] };
+                for commas in comma_counts {
+                    let letters = rng.chance(1, 3);
+                    let it = long_item(rng, len, commas, Some((w, at)), letters);
+                    emit(&it, rng, out, thorough && commas == 0);
+                }
+            }
+        }
+        // two wide characters
+        if len >= 8 {
+            for _ in 0..(if thorough { 8 } else { 2 }) {
+                let (nc, wc, wa) = (rng.below(5) as usize, *rng.pick(&wides), rng.below(len as u64 - 7) as usize);
+                let mut it = long_item(rng, len, nc, Some((wc, wa)), false);
+                let at2 = len - 4;
+                let mut buf = [0u8; 4];
+                let enc = '\u{1F600}'.encode_utf8(&mut buf).as_bytes().to_vec();
+                for (i, x) in enc.iter().enumerate() { it[at2 + i] = *x; }
+                if std::str::from_utf8(&it).is_ok() { emit(&it, rng, out, false); }
+            }
+        }
+    }
+    // very long numbers in each field (valid with leading zeros, overflowing without), very long valid items
+    let mut number_lens: Vec<usize> = (1..=80).collect();
+    number_lens.extend_from_slice(&[100, 255, 256, 257, 1000, 4096, 70000]);
+    for &l in &number_lens {
+        if !thorough && l > 12 && l < 80 && ![16, 20, 23, 24, 25, 32, 39, 40, 48, 64].contains(&l) { continue; }
+        let zeros = "0".repeat(l - 1);
+        let nines = "9".repeat(l);
+        let ones = format!("1{}", "0".repeat(l - 1));
+        for num in [format!("{}1", zeros), nines.clone(), ones.clone(), format!("+{}1", zeros), format!("{}65535", zeros), format!("{}4294967295", zeros), format!("{}4294967296", zeros)] {
+            for field in 0..3 {
+                let mut f = [s("1"), s("0"), s("0")];
+                f[field] = num.clone();
+                let rec = format!("{},{},{}", f[0], f[1], f[2]);
+                if l <= 80 || field == 1 {
+                    run("C13.text", &[hex(format!("|2,0,0|2,1,1|{}|", rec).as_bytes())], out);
+                }
+            }
+        }
+        // a valid item made long by whitespace (incl. 3-byte whitespace) that `retain` removes
+        let pad: String = (0..l).map(|i| if i % 3 == 0 { '\u{3000}' } else if i % 3 == 1 { ' ' } else { '\u{a0}' }).collect();
+        if l <= 1000 {
+            run("C13.text", &[hex(format!("|2,0,0|2,1,1|0{},0,{}1|", pad, pad).as_bytes())], out);
+            run("C13.text", &[hex(format!("|2,0,0|2,1,1|0{},0|", pad).as_bytes())], out);
+        }
+    }
+    // many records / many empty items
+    for &k in &[30usize, 300, 3000] {
+        if !thorough && k > 300 { continue; }
+        run("C13.text", &[hex(format!("|2,0,0|2,1,1{}", "|0,0,1".repeat(k)).as_bytes())], out);
+        run("C13.text", &[hex("|".repeat(k).as_bytes())], out);
+        run("C13.text", &[hex(",".repeat(k).as_bytes())], out);
+        run("C13.text", &[hex(format!("|{}|", ",".repeat(k)).as_bytes())], out);
+    }
+}
+
 pub fn gen(tier: Tier, rng: &mut Rng64, out: &mut Out) {
     let thorough = tier == Tier::Thorough;
     // --- small node arrays, exhaustively (sizes 1-3; size 4 with exact terminals; thorough: all of size 4)
@@ -254,6 +361,8 @@ pub fn gen(tier: Tier, rng: &mut Rng64, out: &mut Out) {
         let tx: Vec<u8> = (0..len).map(|_| match rng.below(10) { 0 => rng.next() as u8, 1 => b'|', 2 => b',', _ => b'0' + rng.below(4) as u8 }).collect();
         run("C13.text", &[hex(&tx)], out);
     }
+    // --- long items with multi-byte characters at every byte offset, long numbers, long valid items
+    long_item_cases(rng, out, thorough);
     // --- valid but non-canonical diagrams (unreachable nodes, duplicates) through from_nodes / validate
     for _ in 0..(if thorough { 20000 } else { 1500 }) {
         let n = 1 + rng.below(5) as usize;
